@@ -10,6 +10,7 @@ Part A: all histories up to a length bound over insert(p in 0..7, len in 0..3) /
 Part B: seeded random histories (up to 40 ops, positions 0..96, chunks 0..9 bytes, extend()).
 Part C: every real Packet.pack() of a stream of generated declarations runs with
         bisturi.packet.Fragments replaced by a monitored subclass carrying the same shadow.
+Part D: the repository's own 40 unit tests run in-process under the same monitored subclass.
 """
 import itertools
 
@@ -18,7 +19,7 @@ from ..common import rng_for, b2j
 LEVEL = "exploration"
 SHARDS = {"quick": 1, "thorough": 16}
 EXHAUSTIVE = True
-REQUIRED = ("inserts_accepted", "inserts_rejected", "tobytes_compared", "pack_calls_monitored")
+REQUIRED = ("inserts_accepted", "inserts_rejected", "tobytes_compared", "pack_calls_monitored", "repo_test_packs_monitored")
 MIN_NONTRIVIAL = 50
 RULE = {
     "quick": "Part A: every history of length<=3 over 36 operations (insert(p,len) p in 0..7 len in 0..3; append(len)) "
@@ -276,3 +277,5 @@ def run(run):
         packs = None
     if packs is not None:
         packs.monitored_pack_stream(run, rng, n_decls=(40 if run.tier == "quick" else 120))
+        if shard == 0:
+            packs.repo_tests_under_monitor(run)
